@@ -36,14 +36,9 @@ class Ephem(Speaker):
         self.order = order if isinstance(order, int) else self.DEFAULT_ORDER
 
     def __iter__(self):
-        self._i = -1
-        return self
-
-    def __next__(self):
-        self._i += 1
-        if self._i >= len(self._orbits):
-            raise StopIteration
-        return self._orbits[self._i]
+        # Each iteration has its own cursor, in order to allow nested loops
+        # on the same ephemeris
+        return iter(self._orbits)
 
     def __getitem__(self, index):
         if isinstance(index, (slice, int)):
